@@ -28,6 +28,7 @@ class _Base(Stage):
         for l in histgen.labels_of(specs):
             res.label(l)
         res.label('dialect:' + case.get('dialect', 'new'))
+        if len(specs) >= 1400: res.label('history>=1400-messages')
         res.nontrivial = nontrivial(specs)
         from .. import wire
         res.sample = dict(dialect=case.get('dialect', 'new'), lines=[wire.render(m, case.get('dialect', 'new')) if not m.get('destroy') else '(connection %s destroyed)' % m['conn'] for m in specs[:12]], n=len(specs))
@@ -63,8 +64,34 @@ class DeepReuse(_Base):
 
     def gen(self, d, tier):
         prof = dict(reuse=0.95, weights=dict(deep=85, message=10, delete=3, bind=2))
-        specs = histgen.history(d, nconn=1 if d.chance(0.7) else 2, nmsg=d.int(64, 90), profile=prof)
+        # now and then far enough for three letters (incarnation 703 is aaa)
+        nmsg = d.int(1420, 1500) if d.chance(0.08) else d.int(64, 90)
+        specs = histgen.history(d, nconn=1 if d.chance(0.7) or nmsg > 100 else 2, nmsg=nmsg, profile=prof)
         return dict(dialect=d.choice(['new', 'old']), specs=specs)
+
+
+class LongSessions(_Base):
+    """thousands of messages on one connection: ids created, used, destroyed and handed out again up to 1500 times (incarnation
+    letters beyond z and zz), ids up to 0xfeffffff; expanded from a small drawn template"""
+    name = 'long-sessions'
+    kind = 'given'
+
+    def examples(self, tier):
+        return 10 if tier == 'quick' else 14 * 12
+
+    def gen(self, d, tier):
+        return dict(dialect=d.choice(['new', 'old']), template=histgen.gen_long_template(d))
+
+    def execute(self, case):
+        specs = histgen.expand_long(case['template'])
+        tr, res = tracker.run_long_history(specs, CHECKS, case.get('dialect', 'new'))
+        t = case['template']
+        res.nontrivial = t['cycles'] >= 27
+        res.label('incarnations>=703' if t['cycles'] >= 703 else 'incarnations>=27')
+        res.label('messages>=%d000' % (len(specs) // 1000) if len(specs) >= 1000 else 'messages<1000')
+        res.label('dialect:' + case.get('dialect', 'new'))
+        res.sample = dict(template=t, n=len(specs))
+        return res
 
 
 class GdbShaped(_Base):
@@ -212,7 +239,7 @@ class C02(Prop):
     rule = ('Hypothesis rule-based machine: rules = step kinds (protocol message, delete_id, registry bind, server-created object, sync) on 1-3 '
             'connections with colliding ids; each step is rendered, decoded and handed to a real ConnectionManager and to the reference model; '
             'after every step target/arguments/delete_id subject, the full object table and the labels on the rendered line are compared. '
-            'deep-reuse: generated histories driving one id through >= 27 incarnations. gdb-shaped: histories handed to the connection manager the way '
+            'deep-reuse: generated histories driving one id through >= 27 incarnations. long-sessions: a drawn template (1-3 ids incl. 0x7fffffff / 0xfeffffff, alternating interfaces, 27..1500 create-use-destroy cycles) expanded to up to ~12 000 messages; comparisons around the letter boundaries (26/27, 702/703), every 97th step and over the last 60. gdb-shaped: histories handed to the connection manager the way '
             'the GDB backend builds messages (sent targets without interface). non-trivial = a history in which an object of generation '
             '>= 1 is mentioned after its creation; distinct by SHA-1 of the spec list. Histories include messages on objects never seen created (a log that starts '
             'mid-session): they stay unresolved, what they create exists. fresh-process: reuse-heavy histories shown by a fresh main.py process in full and behind a '
@@ -220,7 +247,7 @@ class C02(Prop):
             'libwayland closures through the real plugin and extract.py on the symbolic gdb stand-in (incl. same-named same-signature messages of different interfaces).')
     assumptions = ['well-formed histories as constructed by histgen (client ids reused only after delete_id)',
                    'reference model of DESIGN appendix B; enum labels and times are excluded here (C07, C16)']
-    stages = [Machine(), DeepReuse(), GdbShaped(), GdbMode(), FreshProcess()]
+    stages = [Machine(), DeepReuse(), LongSessions(), GdbShaped(), GdbMode(), FreshProcess()]
 
 
 PROP = C02()
